@@ -240,7 +240,7 @@ fn replay_e2(report: &mut Report, v: &Value) {
         .map(|s| {
             let mut o = opts.clone();
             o.deprecation = s.map(|x| x.to_string());
-            Job { schema_path: sp.clone(), query: QuerySrc::Text(v["document"].as_str().unwrap_or("").into()), opts: o }
+            Job { schema_path: sp.clone(), query: QuerySrc::Text(v["document"].as_str().unwrap_or("").into()), opts: o, cwd: None }
         })
         .collect();
     let outs = Pool::default().run(&jobs);
@@ -271,7 +271,7 @@ fn syn_campaign(report: &mut Report, n: usize) {
         for strat in [Some("allow"), Some("warn"), Some("deny"), None] {
             let mut o = opts.clone();
             o.deprecation = strat.map(|s| s.to_string());
-            jobs.push(Job { schema_path: sp.clone(), query: QuerySrc::Text(b.case.document.clone()), opts: o });
+            jobs.push(Job { schema_path: sp.clone(), query: QuerySrc::Text(b.case.document.clone()), opts: o, cwd: None });
         }
         let expected = model_deprecated(&b.world.schema, &b.world.doc, &op);
         metas.push((tp.clone(), b.case.schema_text.clone(), b.case.document.clone(), opts, expected, b.features.has("fragment_spread") || b.features.has("inline_variant")));
